@@ -348,9 +348,14 @@ class Seam:
             self.sched.append((self.tick, now, self.name_of(target), _sigkind(signal), due,
                                id(target)))
         if not model.tainted:
-            if due == now and not (delay is None and at is None):
-                # inf + d == inf: re-queued behind the current step under an equal key;
-                # the model does not follow that corner (recorded, not asserted)
+            if due == now and (delay == 0 or (at is not None and delay is None)):
+                # "in no time at all" / "at the present date" is the current time step: such an
+                # activation takes its turn in the order in which it was made runnable (C02)
+                model.queues.setdefault(due, []).append([target, signal, self.tick])
+            elif due == now and not (delay is None and at is None):
+                # now + d == now for a positive d (inf + d, 2**60 + 1): re-queued behind the
+                # current step under an equal key; the model does not follow that corner
+                # (recorded, not asserted)
                 model.tainted = True
             elif due < now:
                 self._kv("C01/schedule-into-past",
